@@ -21,7 +21,7 @@ package keeper
 // ---------------------------------------------------------------------------------------------
 // Identity (C09): a symbol / min unit is taken at most once
 
-//@ func Keeper.AddToken
+//@ func Keeper.AddToken(ctx, token, saveDenomMetaData)
 //@   property C09, C12
 //@   returns err
 //@   modifies tokens, byMinUnit, byOwner, byContract
@@ -33,7 +33,7 @@ package keeper
 //@   ensures free_accepted: !old(has(tokens, token.Symbol)) && !old(has(byMinUnit, token.MinUnit)) && len(token.Contract) == 0 ==> err == nil
 //@ end
 
-//@ func Keeper.IssueToken
+//@ func Keeper.IssueToken(ctx, symbol, name, minUnit, scale, initialSupply, maxSupply, mintable, owner)
 //@   property C09
 //@   returns err
 //@   requires scale <= 18 && (maxSupply == 0 || initialSupply <= maxSupply)
@@ -52,7 +52,7 @@ package keeper
 // ---------------------------------------------------------------------------------------------
 // Governance (C09): only the owner edits, mints, hands over; the cap is never below what circulates
 
-//@ func Keeper.EditToken
+//@ func Keeper.EditToken(ctx, symbol, name, maxSupply, mintable, owner)
 //@   property C09
 //@   returns err
 //@   requires tokWF(symbol)
@@ -69,7 +69,7 @@ package keeper
 //@   ensures rejected: err != nil ==> tokens == old(tokens)
 //@ end
 
-//@ func Keeper.MintToken
+//@ func Keeper.MintToken(ctx, coinMinted, recipient, owner)
 //@   property C09
 //@   returns err
 //@   requires minUnitWF(coinMinted.Denom)
@@ -86,7 +86,7 @@ package keeper
 //@                           ite(isempty(recipient), owner, recipient), coinMinted.Denom, coinMinted.Amount)
 //@ end
 
-//@ func Keeper.BurnToken
+//@ func Keeper.BurnToken(ctx, coinBurnt, owner)
 //@   property C09
 //@   returns err
 //@   requires coinBurnt.Amount >= 0
@@ -99,7 +99,7 @@ package keeper
 //@   ensures tally:  err == nil ==> burned == set(old(burned), coinBurnt.Denom, coin(coinBurnt.Denom, tally0 + coinBurnt.Amount))
 //@ end
 
-//@ func Keeper.TransferTokenOwner
+//@ func Keeper.TransferTokenOwner(ctx, symbol, srcOwner, dstOwner)
 //@   property C09
 //@   returns err
 //@   requires tokWF(symbol)
@@ -112,7 +112,7 @@ package keeper
 
 // Issue / mint fee (C09, C16): tax to the fee collector, the rest burned, nothing left in the module account.
 //@ define feeTax(f, rate) = (f * raw(rate)) div DEC_ONE
-//@ func feeHandler
+//@ func feeHandler(ctx, k, feeAcc, fee)
 //@   property C09, C16
 //@   returns err
 //@   requires has(prm) && !isnil(get(prm).TokenTaxRate) && raw(get(prm).TokenTaxRate) >= 0 && raw(get(prm).TokenTaxRate) <= DEC_ONE
@@ -134,7 +134,7 @@ package keeper
 //@      && p.IssueTokenBaseFee.Amount >= 0 && ufb("denom_valid", p.IssueTokenBaseFee.Denom)
 //@ define paramsStored = has(prm) && paramsOK(get(prm))
 
-//@ func Keeper.SetParams
+//@ func Keeper.SetParams(ctx, params)
 //@   property C16
 //@   returns err
 //@   modifies prm
@@ -142,7 +142,7 @@ package keeper
 //@   ensures rejected: err != nil ==> prm == old(prm)
 //@ end
 
-//@ func msgServer.UpdateParams
+//@ func msgServer.UpdateParams(goCtx, msg)
 //@   property C16
 //@   returns resp, err
 //@   modifies prm
@@ -152,7 +152,7 @@ package keeper
 //@ end
 
 // The fee factor is computed with floating point (math.Log / math.Pow): assumed contract (A-FLOAT), not verified.
-//@ func calcFeeFactor
+//@ func calcFeeFactor(name)
 //@   property C16
 //@   trusted
 //@   returns r
@@ -161,7 +161,7 @@ package keeper
 //@   nopanic
 //@ end
 
-//@ func Keeper.calcTokenIssueFee
+//@ func Keeper.calcTokenIssueFee(ctx, symbol)
 //@   property C16
 //@   returns fee, params
 //@   requires paramsStored
@@ -175,7 +175,7 @@ package keeper
 
 // Issue through the message handler: the issued token is the signer's, under a symbol and min unit nobody held, and
 // the issue fee is taken from the signer alone (no third account is touched)
-//@ func msgServer.IssueToken
+//@ func msgServer.IssueToken(goCtx, msg)
 //@   property C09
 //@   returns resp, err
 //@   requires paramsStored && msg.Scale <= 18 && (msg.MaxSupply == 0 || msg.InitialSupply <= msg.MaxSupply)
@@ -189,7 +189,7 @@ package keeper
 //@   ensures others_untouched: err == nil ==> (forall a:Bytes :: forall d:Str :: a != addr(msg.Owner) && a != MOD && a != macc(m.k.feeCollectorName) ==> bal(a, d) == old(bal(a, d)))
 //@ end
 
-//@ func msgServer.EditToken
+//@ func msgServer.EditToken(goCtx, msg)
 //@   property C09
 //@   returns resp, err
 //@   requires tokWF(msg.Symbol)
@@ -200,7 +200,7 @@ package keeper
 //@   ensures rejected: err != nil ==> tokens == old(tokens)
 //@ end
 
-//@ func msgServer.TransferTokenOwner
+//@ func msgServer.TransferTokenOwner(goCtx, msg)
 //@   property C09
 //@   returns resp, err
 //@   requires tokWF(msg.Symbol)
@@ -211,7 +211,7 @@ package keeper
 //@   ensures rejected: err != nil ==> tokens == old(tokens)
 //@ end
 
-//@ func msgServer.BurnToken
+//@ func msgServer.BurnToken(goCtx, msg)
 //@   property C09
 //@   returns resp, err
 //@   requires msg.Coin.Amount >= 0
@@ -221,7 +221,7 @@ package keeper
 //@          && (forall d:Str :: bal(addr(msg.Sender), d) == old(bal(addr(msg.Sender), d)) - ite(d == msg.Coin.Denom, msg.Coin.Amount, 0))
 //@ end
 
-//@ func msgServer.MintToken
+//@ func msgServer.MintToken(goCtx, msg)
 //@   property C09
 //@   returns resp, err
 //@   requires paramsStored && minUnitWF(msg.Coin.Denom) && msg.Coin.Amount >= 0
@@ -243,7 +243,7 @@ package keeper
 // Fee-token swap on the ledger (C10): what is burned is taken from the sender in the offered denomination and is not
 // more than offered; what is minted goes to the recipient; the module account nets to zero; supply moves by exactly
 // the two amounts; the amounts themselves are LossLessSwap's (types contract: never over-minted).
-//@ func Keeper.SwapFeeToken
+//@ func Keeper.SwapFeeToken(ctx, feePaid, sender, recipient)
 //@   property C10
 //@   returns burned, minted, err
 //@   requires feePaid.Amount > 0 && sender != MOD && (recipient == nil || recipient != MOD) && minUnitWF(feePaid.Denom)
@@ -267,17 +267,17 @@ package keeper
 //@ end
 
 // ERC20 side (EVM calls through the contract ABI): assumed contracts - they do not touch the bank ledger
-//@ func Keeper.BurnERC20
+//@ func Keeper.BurnERC20(ctx, contract, from, amount)
 //@   property C10
 //@   trusted
 //@   returns err
 //@ end
-//@ func Keeper.MintERC20
+//@ func Keeper.MintERC20(ctx, contract, to, amount)
 //@   property C10
 //@   trusted
 //@   returns err
 //@ end
-//@ func Keeper.ERC20Enabled
+//@ func Keeper.ERC20Enabled(ctx)
 //@   property C10
 //@   trusted
 //@   returns on
@@ -287,7 +287,7 @@ package keeper
 // sender, after / before the same amount is burned / minted on the ERC20 contract; the module account nets to zero
 // The token record an ERC20 deployment is made for (C09): an unregistered min unit (an IBC denomination) gets a new
 // record only under a symbol nobody holds - an existing token is never replaced; a registered min unit gives its token.
-//@ func Keeper.buildERC20Token
+//@ func Keeper.buildERC20Token(ctx, name, symbol, minUnit, scale)
 //@   property C09
 //@   returns tok, err
 //@   requires minUnitWF(minUnit)
@@ -296,7 +296,7 @@ package keeper
 //@   ensures registered:  err == nil && has(byMinUnit, minUnit) ==> tok == get(tokens, get(byMinUnit, minUnit))
 //@ end
 
-//@ func Keeper.SwapFromERC20
+//@ func Keeper.SwapFromERC20(ctx, sender, receiver, wantedAmount)
 //@   property C10
 //@   returns err
 //@   requires wantedAmount.Amount >= 0 && ufb("denom_valid", wantedAmount.Denom) && receiver != MOD
@@ -305,7 +305,7 @@ package keeper
 //@                                 && supply == addcoin(old(supply), wantedAmount.Denom, wantedAmount.Amount)
 //@   ensures known_token: err == nil ==> has(byMinUnit, wantedAmount.Denom)
 //@ end
-//@ func Keeper.SwapToERC20
+//@ func Keeper.SwapToERC20(ctx, sender, receiver, amount)
 //@   property C10
 //@   returns err
 //@   requires amount.Amount >= 0 && ufb("denom_valid", amount.Denom) && sender != MOD
@@ -318,11 +318,11 @@ package keeper
 // ---------------------------------------------------------------------------------------------
 // Genesis export helpers (C12), inlined into token.ExportGenesis
 
-//@ func Keeper.GetTokens
+//@ func Keeper.GetTokens(ctx, owner)
 //@   inline
 //@   invariant #1 pos:    0 <= it_idx && it_idx <= it_n && len(l_tokens) == it_idx
 //@ end
-//@ func Keeper.GetAllBurnCoin
+//@ func Keeper.GetAllBurnCoin(ctx)
 //@   inline
 //@   invariant #1 pos:    0 <= it_idx && it_idx <= it_n && len(coins) == it_idx
 //@   invariant #1 listed: forall j:Int :: 0 <= j && j < it_idx ==> coins[j] == get(burned, it_seq[j])
@@ -336,7 +336,7 @@ package keeper
 // a contract bound to a token (the ABI lookups are named functions of the topic / address, nothing else is assumed)
 //@ define swapLog(L) = len(L.Topics) == 1 && ufb("abi_event_ok", L.Topics[0]) && ufstr("abi_event_name", L.Topics[0]) == "SwapToNative"
 //@                     && has(byContract, ufstr("addr_hex", L.Address))
-//@ func erc20Hook.PostTxProcessing
+//@ func erc20Hook.PostTxProcessing(ctx, msg, receipt)
 //@   property C10
 //@   returns err
 //@   requires forall j:Int :: 0 <= j && j < len(receipt.Logs) ==> !receipt.Logs[j].isnil
